@@ -9,6 +9,7 @@ import Driver.C14
 import Driver.C14Escape
 import Driver.C11
 import Driver.C11Iter
+import Driver.C11Overlap
 import Driver.Conn
 import Driver.C18
 import Driver.H2Send
@@ -24,6 +25,6 @@ theorems in `HC/Props` are about. -/
 open Lean Driver
 
 def allHandlers : List (String × Handler) :=
-  Driver.C04.handlers ++ Driver.H2Wire.handlers ++ Driver.H2Deliver.handlers ++ Driver.C04H1.handlers ++ Driver.C13.handlers ++ Driver.Shell.handlers ++ Driver.C20.handlers ++ Driver.C19.handlers ++ Driver.Streams.handlers ++ Driver.Proto.handlers ++ Driver.C17.handlers ++ Driver.Utils.handlers ++ Driver.C14.handlers ++ Driver.C14Escape.handlers ++ Driver.C11.handlers ++ Driver.C11Iter.handlers ++ Driver.Conn.handlers ++ Driver.C18.handlers ++ Driver.H2Send.handlers
+  Driver.C04.handlers ++ Driver.H2Wire.handlers ++ Driver.H2Deliver.handlers ++ Driver.C04H1.handlers ++ Driver.C13.handlers ++ Driver.Shell.handlers ++ Driver.C20.handlers ++ Driver.C19.handlers ++ Driver.Streams.handlers ++ Driver.Proto.handlers ++ Driver.C17.handlers ++ Driver.Utils.handlers ++ Driver.C14.handlers ++ Driver.C14Escape.handlers ++ Driver.C11.handlers ++ Driver.C11Iter.handlers ++ Driver.C11Overlap.handlers ++ Driver.Conn.handlers ++ Driver.C18.handlers ++ Driver.H2Send.handlers
 
 def main : IO Unit := Driver.runMain allHandlers
